@@ -109,11 +109,14 @@ def check_forwarding(ctx, rule, caller, call, callee, expect, what=""):
     for prm, want in expect.items():
         got = b.get(prm)
         if callable(want):
-            good = got is not None and want(got)
+            good = got is not None and (want(got) or want(resolve_local(caller, got)))
         elif want is None:
             good = got is None
         else:
             good = isinstance(got, ast.Name) and got.id == want
+            if not good and got is not None:
+                r = resolve_local(caller, got)
+                good = isinstance(r, ast.Name) and r.id == want
         if good:
             ctx.inst(rule, caller, call, "%s ← %s%s" % (prm, norm(got) if got is not None else "(default)", what))
         else:
@@ -228,3 +231,13 @@ def local_def(func, name):
             return n
     v = resolve_local(func, ast.Name(id=name, ctx=ast.Load()))
     return v if isinstance(v, ast.Lambda) else None
+
+
+def resolve_elem(func, expr):
+    """`k[0]` where k is bound once to a tuple literal -> that element; otherwise the (locally resolved) expression"""
+    expr = resolve_local(func, expr)
+    if isinstance(expr, ast.Subscript) and isinstance(expr.slice, ast.Constant) and isinstance(expr.slice.value, int):
+        base = resolve_local(func, expr.value)
+        if isinstance(base, (ast.Tuple, ast.List)) and -len(base.elts) <= expr.slice.value < len(base.elts):
+            return resolve_local(func, base.elts[expr.slice.value])
+    return expr
